@@ -7,6 +7,7 @@ Open Scope Z_scope.
 Section Src.
 Variables S R : Type.          (* states, shapes: opaque *)
 Variable tstep : S -> Z.       (* state.time_step *)
+Variable osfs : R -> S -> R.   (* occupancy_shape_from_state(shape, state) *)
 
 Fixpoint occupancy_at_time_step_for0 (time_step : Z) (l_ : list ((Z * R))) : option ((Z * R)) :=
   match l_ with
@@ -116,4 +117,7 @@ Definition src_dyn_state_set_itv (o : (dyn_obs S R (set_pred_itv R))) (t : Z) : 
 (* EnvironmentObstacle.occupancy_at_time *)
 Definition src_env_occ (o : (env_obs R)) (t : Z) : (occ R) :=
   {| o_time := (TStep t); o_region := (eo_shape o) |}.
+(* TrajectoryPrediction._create_occupancy_set (states with an orientation, no wheelbase lengths) *)
+Definition src_create_occs (p : (traj_pred_src S R)) : (list (Z * R)) :=
+  (map (fun m_9 => ((tstep m_9), (osfs (ts_shape p) m_9))) (t_states (ts_traj p))).
 End Src.
